@@ -292,6 +292,22 @@ pub fn run(name: &str) -> Option<bool> {
             crate::outcome::run(&p, &bytes(&["eat", "Fastfood", "drink", "--premium", "bogus"]))
                 .is_value()
         }
+        // C19: a block whose optional word member is absent, then a foreign flag, then a word for
+        // the enclosing level: the group looked at the non-adjacent word, failed to convert it
+        // and gave the block up
+        "adjacent_group_fails_on_non_adjacent_word" => {
+            let group = Spec::Adj(vec![
+                item(1, Names::short('a'), Leaf::ReqFlag),
+                Spec::wrap(W::Optional { catch: false }, 3, pos(2, Ty::U32)),
+            ]);
+            let o = OptSpec::plain(Spec::Seq(vec![
+                Spec::wrap(W::Many { catch: false }, 4, group),
+                item(5, Names::short('f'), Leaf::Switch),
+                Spec::wrap(W::Optional { catch: false }, 7, pos(6, Ty::Str)),
+            ]));
+            let p = build_options(&o);
+            !crate::outcome::run(&p, &bytes(&["-a", "-f", "name"])).is_value()
+        }
         _ => return None,
     })
 }
